@@ -3,7 +3,7 @@ get_new_initial_condition (fmatrix.py)."""
 import itertools
 from fvc.registry import obligation
 from .common import cls, mk_vertices
-from .c02_matrix import build, versor_by_contract, force_matrix, find_interface
+from .c02_matrix import build, versor_by_contract, versor_concrete, force_matrix, find_interface
 from .shapes import same_path
 
 FM = "forsys.fmatrix:ForceMatrix."
@@ -177,3 +177,50 @@ def o16_1(tier):
         if shape == "tri_star" or tier != "quick":
             out.append((f"{shape},k=1,limit=symbolic", mk(shape, 1, False)))
     return out
+
+
+@obligation("O16.6", ["C16", "C02"], [FM + "get_angle_limited_edges", FM + "_build_matrix"],
+            "scenario with concrete unit directions: a four-fold junction whose opposite interfaces open by pi is flagged by the limit 3.0 while its "
+            "neighbours are not: nothing is excluded (an interface needs BOTH ends flagged) and the flagged junction keeps its two equations with all four "
+            "coefficients; with the limit 1.0 every junction is flagged, every interface is excluded", tier="Pn")
+def o16_6(tier):
+    from fractions import Fraction as Fr
+    E = [(Fr(1), Fr(0)), (Fr(0), Fr(1)), (Fr(-1), Fr(0)), (Fr(0), Fr(-1))]
+
+    def rot(v, w):      # complex product: rotate v by the direction w
+        return (v[0] * w[0] - v[1] * w[1], v[0] * w[1] + v[1] * w[0])
+
+    def mk(limit, expect_all_excluded):
+        def h(ctx):
+            m, fr, cycles, info, _ = build(ctx, "four_fold", 0)
+            J = info["junction_rows"][0]
+            spokes = info["internal"]
+
+            def assign(path, vid):
+                for i, sp in enumerate(spokes):
+                    if same_path(sp, path):
+                        return E[i] if vid == J else (-E[i][0], -E[i][1])
+                # ring arc ending at an outer vertex: 53.13 degrees off the outward direction, to either side
+                i = [k for k, sp in enumerate(spokes) if sp[-1] == vid][0]
+                side = (Fr(3, 5), Fr(4, 5)) if path[0] == vid else (Fr(3, 5), Fr(-4, 5))
+                return rot(E[i], side)
+            u = versor_concrete(ctx, fr, assign)
+            fm = force_matrix(ctx, fr, False, angle_limit=limit)
+            deletes = sorted(ctx.list_of(ctx.get(fm, "deletes")))
+            used = [ctx.list_of(c) for c in ctx.list_of(ctx.get(fm, "big_edges_to_use"))]
+            rows = sorted(ctx.keys(ctx.get(fm, "map_vid_to_row")))
+            mat = [ctx.list_of(r) for r in ctx.list_of(ctx.get(fm, "matrix"))]
+            if expect_all_excluded:
+                ctx.ensure(deletes == sorted([J] + [sp[-1] for sp in spokes]), "limit 1.0: every junction is flagged")
+                ctx.ensure(used == [] and rows == [] and len(mat) == 0, "limit 1.0: every interface is excluded, no equation is left")
+                return
+            ctx.ensure(deletes == [J], "only the four-fold junction (opposite interfaces open by pi >= 3.0) is flagged")
+            ctx.ensure(len(used) == 4, "no interface is excluded: none has both ends flagged")
+            ctx.ensure(rows == [J] and len(mat) == 2, "the flagged junction keeps its two equations")
+            if len(mat) != 2:
+                return
+            for ci, c in enumerate(used):
+                i = [k for k, sp in enumerate(spokes) if same_path(sp, c)][0]
+                ctx.ensure(ctx.And(ctx.close(mat[0][ci], E[i][0]), ctx.close(mat[1][ci], E[i][1])), f"column {ci}: the direction of that interface at the junction")
+        return h
+    return [("four_fold,limit=3.0", mk(3.0, False)), ("four_fold,limit=1.0", mk(1.0, True))]
